@@ -22,12 +22,14 @@ from typing import Union
 
 
 # Aggregation Functions
+# The values are the non-null values of a group; a group with none has the count 0
+# and a null MIN, MAX, AVG and SUM.
 def min_agg(values: List[Any]) -> Any:
-    return min(values)
+    return min(values, default=None)
 
 
 def max_agg(values: List[Any]) -> Any:
-    return max(values)
+    return max(values, default=None)
 
 
 def count_agg(values: List[Any]) -> int:
@@ -35,10 +37,14 @@ def count_agg(values: List[Any]) -> int:
 
 
 def avg_agg(values: List[decimal.Decimal]) -> decimal.Decimal:
+    if not values:
+        return None
     return decimal.Decimal(sum(values)) / decimal.Decimal(len(values))
 
 
 def sum_agg(values: List[decimal.Decimal]) -> decimal.Decimal:
+    if not values:
+        return None
     return sum(values)
 
 
@@ -125,8 +131,10 @@ class GroupBy:
         # aggregations is collected once, otherwise its values are counted once per request
         collect_columns = list(dict.fromkeys(col for _, col in aggregations))
         for group_key, column, value in self._map(collect_columns):
+            # register the group first: a group whose values are all null is still a group
+            group_values = column_value_map[group_key]
             if value is not None:
-                column_value_map[group_key][column].append(value)
+                group_values[column].append(value)
 
         # Applying aggregation functions
         for group, column_values in column_value_map.items():
